@@ -54,6 +54,85 @@ var c04 struct {
 	grants  map[string]*c04Grant
 	msgs    []sdk.Msg // what reached the staking module's own message server
 	srvFail bool
+
+	// journal mode (VerifC04_RunAtomic): the Cosmos-side state above lives "in the context's store". A version counter is
+	// kept in the real KV store of the context; every write appends a journal entry and bumps the counter, every read first
+	// rebuilds grants / msgs from base + journal[:counter visible in that context]. A cached context that is discarded
+	// therefore takes its writes with it, exactly like store contents.
+	env     *zz.Env
+	jmode   bool
+	base    map[string]*c04Grant
+	journal []c04Entry
+	oogAt   int // index of the Cosmos-side write at which the gas meter runs out (-1: never)
+	writes  int
+	run     struct {
+		ctx    sdk.Context
+		db     *statedb.StateDB
+		method *abi.Method
+		args   []interface{}
+	}
+}
+
+type c04Entry struct {
+	kind int // 0 save grant, 1 delete grant, 2 message reached the staking module
+	key  string
+	g    *c04Grant
+	m    sdk.Msg
+}
+
+var c04VersionKey = []byte("c04.version")
+
+func c04Version(ctx sdk.Context) int {
+	b := ctx.KVStore(c04.env.Key("staking")).Get(c04VersionKey)
+	if len(b) == 0 {
+		return 0
+	}
+	return int(b[0])
+}
+
+// c04Sync rebuilds the Cosmos-side view visible in ctx (journal mode only).
+func c04Sync(ctx sdk.Context) {
+	if !c04.jmode {
+		return
+	}
+	c04.grants = map[string]*c04Grant{}
+	for k, g := range c04.base {
+		c04.grants[k] = g
+	}
+	c04.msgs = nil
+	for _, e := range c04.journal[:c04Version(ctx)] {
+		switch e.kind {
+		case 0:
+			c04.grants[e.key] = e.g
+		case 1:
+			delete(c04.grants, e.key)
+		default:
+			c04.msgs = append(c04.msgs, e.m)
+		}
+	}
+}
+
+// c04Write performs one Cosmos-side write in ctx; it is also the point where the SDK gas meter may run out.
+func c04Write(ctx sdk.Context, e c04Entry) {
+	if c04.jmode {
+		if c04.writes == c04.oogAt {
+			c04.writes++
+			panic(sdk.ErrorOutOfGas{Descriptor: "harness: gas ran out at a Cosmos-side write"})
+		}
+		c04.writes++
+		n := c04Version(ctx)
+		c04.journal = append(c04.journal[:n], e)
+		ctx.KVStore(c04.env.Key("staking")).Set(c04VersionKey, []byte{byte(n + 1)})
+		return
+	}
+	switch e.kind {
+	case 0:
+		c04.grants[e.key] = e.g
+	case 1:
+		delete(c04.grants, e.key)
+	default:
+		c04.msgs = append(c04.msgs, e.m)
+	}
 }
 
 func c04Key(grantee, granter sdk.AccAddress, url string) string {
@@ -61,6 +140,7 @@ func c04Key(grantee, granter sdk.AccAddress, url string) string {
 }
 
 func c04GetAuthorization(k authzkeeper.Keeper, ctx sdk.Context, grantee, granter sdk.AccAddress, msgType string) (authz.Authorization, *time.Time) {
+	c04Sync(ctx)
 	g, ok := c04.grants[c04Key(grantee, granter, msgType)]
 	if !ok {
 		return nil, nil
@@ -68,29 +148,30 @@ func c04GetAuthorization(k authzkeeper.Keeper, ctx sdk.Context, grantee, granter
 	return g.auth, g.exp
 }
 func c04SaveGrant(k authzkeeper.Keeper, ctx sdk.Context, grantee, granter sdk.AccAddress, a authz.Authorization, expiration *time.Time) error {
-	c04.grants[c04Key(grantee, granter, a.MsgTypeURL())] = &c04Grant{auth: a, exp: expiration}
+	c04Write(ctx, c04Entry{kind: 0, key: c04Key(grantee, granter, a.MsgTypeURL()), g: &c04Grant{auth: a, exp: expiration}})
 	return nil
 }
 func c04DeleteGrant(k authzkeeper.Keeper, ctx sdk.Context, grantee, granter sdk.AccAddress, msgType string) error {
 	key := c04Key(grantee, granter, msgType)
+	c04Sync(ctx)
 	if _, ok := c04.grants[key]; !ok {
 		return authz.ErrNoAuthorizationFound
 	}
-	delete(c04.grants, key)
+	c04Write(ctx, c04Entry{kind: 1, key: key})
 	return nil
 }
 
 type c04Srv struct{}
 
-func (c04Srv) record(m sdk.Msg) error {
+func (c04Srv) record(ctx context.Context, m sdk.Msg) error {
 	if c04.srvFail {
 		return errors.New("staking module refused")
 	}
-	c04.msgs = append(c04.msgs, m)
+	c04Write(sdk.UnwrapSDKContext(ctx), c04Entry{kind: 2, m: m})
 	return nil
 }
 func (s c04Srv) CreateValidator(ctx context.Context, m *stakingtypes.MsgCreateValidator) (*stakingtypes.MsgCreateValidatorResponse, error) {
-	return &stakingtypes.MsgCreateValidatorResponse{}, s.record(m)
+	return &stakingtypes.MsgCreateValidatorResponse{}, s.record(ctx, m)
 }
 func (s c04Srv) EditValidator(context.Context, *stakingtypes.MsgEditValidator) (*stakingtypes.MsgEditValidatorResponse, error) {
 	panic("not used")
@@ -99,16 +180,16 @@ func (s c04Srv) Delegate(ctx context.Context, m *stakingtypes.MsgDelegate) (*sta
 	if err := c02Delegate(ctx, m); err != nil {
 		return nil, err
 	}
-	return &stakingtypes.MsgDelegateResponse{}, s.record(m)
+	return &stakingtypes.MsgDelegateResponse{}, s.record(ctx, m)
 }
 func (s c04Srv) BeginRedelegate(ctx context.Context, m *stakingtypes.MsgBeginRedelegate) (*stakingtypes.MsgBeginRedelegateResponse, error) {
-	return &stakingtypes.MsgBeginRedelegateResponse{}, s.record(m)
+	return &stakingtypes.MsgBeginRedelegateResponse{}, s.record(ctx, m)
 }
 func (s c04Srv) Undelegate(ctx context.Context, m *stakingtypes.MsgUndelegate) (*stakingtypes.MsgUndelegateResponse, error) {
-	return &stakingtypes.MsgUndelegateResponse{}, s.record(m)
+	return &stakingtypes.MsgUndelegateResponse{}, s.record(ctx, m)
 }
 func (s c04Srv) CancelUnbondingDelegation(ctx context.Context, m *stakingtypes.MsgCancelUnbondingDelegation) (*stakingtypes.MsgCancelUnbondingDelegationResponse, error) {
-	return &stakingtypes.MsgCancelUnbondingDelegationResponse{}, s.record(m)
+	return &stakingtypes.MsgCancelUnbondingDelegationResponse{}, s.record(ctx, m)
 }
 func (s c04Srv) UpdateParams(context.Context, *stakingtypes.MsgUpdateParams) (*stakingtypes.MsgUpdateParamsResponse, error) {
 	panic("not used")
@@ -171,7 +252,9 @@ func c04Setup() (Precompile, sdk.Context, *statedb.StateDB) {
 	c04.grants = map[string]*c04Grant{}
 	c04.msgs = nil
 	c04.srvFail = false
+	c04.jmode, c04.journal, c04.base, c04.oogAt, c04.writes = false, nil, nil, -1, 0
 	env := zz.NewEnv([]string{"staking"}, nil)
+	c04.env = env
 	p := Precompile{Precompile: cmn.Precompile{ApprovalExpiration: time.Hour}, stakingKeeper: stakingkeeper.Keeper{Keeper: &sdkstakingkeeper.Keeper{}}}
 	l := &c04Ledger{bal: map[common.Address]*big.Int{}}
 	for _, a := range c04Addrs {
